@@ -42,7 +42,7 @@ class Gen:
         keys = []
         if r.random() < 0.45:
             keys = sorted({r.choice(LEAF_KEYS) for _ in range(r.randint(1, 3))})
-        node = {"k": "leaf", "mode": mode, "sid": sid, "sel": r.random() < 0.55, "keys": keys, "rows": r.choice([1, 1, 1, 2, 3])}
+        node = {"k": "leaf", "mode": mode, "sid": sid, "sel": r.random() < 0.6, "keys": keys, "rows": r.choice([1, 1, 1, 2, 3])}
         return self._wrap(node)
 
     def _wrap(self, node):
